@@ -11,7 +11,7 @@ ALL_LANESETS = [tuple(j for j in range(5) if m >> j & 1) for m in range(1, 32)] 
 ALL_COMBOS = ALL_LANESETS + ["open"]  # 32 combinations
 
 
-def group_lines(t, combo, lens=None, forced=False, tap=False, order=None, open_first=True):
+def group_lines(t, combo, lens=None, forced=False, tap=False, order=None, open_first=True, dup_flags=0):
     """The N lines of one tick group.
 
     combo: tuple of lane indices, or "open".  lens: {index: length} (default 0).
@@ -30,6 +30,8 @@ def group_lines(t, combo, lens=None, forced=False, tap=False, order=None, open_f
     if tap:
         flags.append(("N", t, 6, lens.get(6, 0)))
     out += flags
+    if dup_flags:
+        out += [flags[k % len(flags)] for k in range(dup_flags)] if flags else []
     if order is not None:
         out = [out[k] for k in order]
         if combo == "open" and open_first:
@@ -261,10 +263,11 @@ def random_track(rng, n_groups, *, max_tick_gap=400, res=192, big=False, phrases
         for fl in (5, 6):
             if rng.random() < (0.3 if not flags_only else 0.8):
                 lens[fl] = rng.randrange(0, 500)  # flag lines may carry a (meaningless) length
-        nfl = len(idxs) + int(forced) + int(tap)
+        dup = rng.choice([1, 1, 2]) if (forced or tap) and rng.random() < 0.06 else 0      # a flag line written twice or three times
+        nfl = len(idxs) + int(forced) + int(tap) + dup
         order = list(range(nfl))
         rng.shuffle(order)
-        nls += group_lines(t, combo, lens, forced, tap, order)
+        nls += group_lines(t, combo, lens, forced, tap, order, dup_flags=dup)
         ticks.append(t)
         if rng.random() < unit_gap_p:
             gap = 1
